@@ -172,3 +172,33 @@ Definition lr_terminates_b_exists_stmt : Prop :=
     acyclic_b g = true -> hlr_free_b g = true ->
   forall input, tokens_in_range g input -> no_eof g input ->
     exists fuel, finished (run g A fuel input).
+
+(* the certificate checkers are complete for well-formed grammars, so the
+   hypotheses can be stated declaratively *)
+Definition acyclic_b_complete_stmt : Prop :=
+  forall g, wf_grammar g = true -> acyclic g -> acyclic_b g = true.
+Definition hlr_free_b_complete_stmt : Prop :=
+  forall g, wf_grammar g = true -> hlr_free g -> hlr_free_b g = true.
+
+(* THE termination theorem, declarative hypotheses: every automaton passing
+   validS and validE (validC is NOT needed) over a grammar in which no rule
+   derives just itself and without hidden left recursion returns on every input
+   within [lr_fuel] *)
+Definition lr_terminates_stmt : Prop :=
+  forall g A, wf_grammar g = true -> validS g A = true -> validE g A = true ->
+    acyclic g -> hlr_free g ->
+  forall input, tokens_in_range g input ->
+    (exists fuel, finished (run g A fuel input)) /\
+    run g A (lr_fuel g input) input <> ROutOfFuel.
+
+(* for validated complete (conflict-free) tables nothing has to be assumed about
+   hidden left recursion: validC excludes it for the rules that matter.
+   Hypotheses: the three validators, every rule derives a token string, no rule
+   derives just itself *)
+Definition lr_terminates_validated_stmt : Prop :=
+  forall g A, wf_grammar g = true ->
+    validS g A = true -> validC g A = true -> validE g A = true ->
+    productive g -> acyclic g ->
+  forall input, tokens_in_range g input -> no_eof g input ->
+    (exists fuel, finished (run g A fuel input)) /\
+    run g A (lr_fuel g input) input <> ROutOfFuel.
